@@ -400,6 +400,15 @@ func (s *Store) lookupSecretInternal(ctx context.Context, name string) (Secret, 
 
 			s.active.Lock()
 			defer s.active.Unlock()
+			if cs, ok := s.active.m[name]; ok && cs != nil {
+				// Another lookup of the same name completed while this one was in
+				// flight (the two did not share a request). Keep the entry that
+				// is already installed: replacing it here would bypass the
+				// watchers' notification, so updaters created in between would
+				// never learn of the new version. The next poll brings in
+				// whatever is newer, with notification.
+				return s.secretLocked(name), nil
+			}
 			s.active.m[name] = &cachedSecret{Secret: sv, LastAccess: s.timeNow().Unix()}
 			if err := s.flushCacheLocked(); err != nil {
 				s.logf("WARNING: error flushing cache: %v", err)
